@@ -21,6 +21,7 @@ class VersionsProfile(StoreProfile):
 
     def params(self, rng, tier):
         p = super().params(rng, tier)
+        p["crowd"] = rng.random() < 0.1
         p["n_entities"] = rng.randint(1, 8 if tier == "quick" else 14)
         p["n_ops"] = rng.randint(6, 16 if tier == "quick" else 36)
         p["capacity"] = rng.choice([4096, 4096, 64, 8])
